@@ -212,7 +212,7 @@ def check(run: Run) -> None:
                     fa = fa or ctx.analysis(fi)
                     st = strip_sites(fa.term_of(t.args[0])) if fa.cfg.has_node(t) else ("top", "?")
                     # the asserted value is the result of visiting / a callback / a constructor: internal invariant
-                    internal = st[0] in ("gvisit", "visit", "new", "app", "index", "phi", "attr", "upd", "ifexp")
+                    internal = st[0] in ("gvisit", "visit", "tvisit", "new", "app", "index", "phi", "attr", "upd", "ifexp")
                     if internal:
                         run.ok("C10.R4", fi, f"assert {ast.unparse(t)[:60]}: node-kind invariant of an internal value")
                         continue
@@ -278,7 +278,9 @@ def check(run: Run) -> None:
     run.rule("C10.R10", "get_method_and_class answers 'no method' for the unknown type by identity (class_object is Any), before any MRO walk")
     _check_any_guard(run, m)
     run.rule("C10.R8", "the string form of a lambda is parsed as given (only surrounding whitespace stripped): no re-tokenising / whitespace normalisation that would alter string constants")
-    pa = m.find_func("parse_as_ast", in_module="func_adl.util_ast")
+    from ..lib import view as _view
+
+    pa = _view(m, m.find_func("parse_as_ast", in_module="func_adl.util_ast"))
     n_p = 0
     from ..lib import call_events
 
